@@ -949,7 +949,12 @@ fn main() {
         "header names are valid HTTP tokens and values contain no control characters (so that 'carried' is well defined)".to_string(),
         "stalls/timeouts are out of scope (no clock seam in reqwest)".to_string(),
     ];
-    simcore::write_evidence(&cfg.evidence, PROP, &tier, seed, coverage, assumptions, wall, reported.len());
+    if cmd != "selftest" {
+        // (the determinism self-test explores nothing new: it must not overwrite the evidence)
+        simcore::write_evidence(&cfg.evidence, PROP, &tier, seed, coverage, assumptions, wall, reported.len());
+    } else {
+        let _ = (&coverage, &assumptions);
+    }
     for (sig, nhit) in &known_hit {
         let f = findings.iter().find(|f| &f.signature == sig).unwrap();
         println!("KNOWN-FINDING: property={} {} [{} runs]", PROP, f.what, nhit);
